@@ -1,7 +1,9 @@
 //! dltverif — property-based testing / fuzzing machinery for the dlt-core properties C01..C19.
 pub mod model;
 pub mod refcodec;
+pub mod oracle;
 pub mod util;
+pub mod verdict;
 
 #[cfg(feature = "runner")]
 pub mod gen;
